@@ -258,13 +258,16 @@ def perfsqrIdx (t : ModTest) (r : Nat) : Nat :=
   let q := (r * t.inv) % B &&& ((1 <<< perfsqrModBits) % B - 1)
   ((q * t.d) % B) >>> perfsqrModBits
 
-/-- PERFSQR_MOD_1 / PERFSQR_MOD_2: `true` = the residue is possible for a square. -/
-def perfsqrTest (t : ModTest) (r : Nat) : Bool :=
-  let idx := perfsqrIdx t r
+/-- the table look-up of PERFSQR_MOD_1 (`(mask >> idx) & 1`) / PERFSQR_MOD_2
+    (`m = (int) idx - GMP_LIMB_BITS < 0 ? mlo : mhi; idx %= GMP_LIMB_BITS; (m >> idx) & 1`). -/
+def perfsqrBit (t : ModTest) (idx : Nat) : Bool :=
   if t.two then
-    let m := if idx < 64 then t.mlo else t.mhi     -- (int) idx - GMP_LIMB_BITS < 0 ? mlo : mhi
+    let m := if idx < 64 then t.mlo else t.mhi
     (m >>> (idx % 64)) &&& 1 != 0
   else (t.mlo >>> idx) &&& 1 != 0
+
+/-- PERFSQR_MOD_1 / PERFSQR_MOD_2: `true` = the residue is possible for a square. -/
+def perfsqrTest (t : ModTest) (r : Nat) : Bool := perfsqrBit t (perfsqrIdx t r)
 
 /-- PERFSQR_MOD_34 folding. -/
 def perfsqrFold (r : Nat) : Nat := (r &&& ((1 <<< mod34Bits) % B - 1)) + (r >>> mod34Bits)
